@@ -55,7 +55,26 @@ ANCHORS = [
 def plan(tier):
     n = 2000 if tier == "quick" else 80000
     return [(c, n) for c in par.FAULT_CLASSES] + \
-        [("dense", 4 * n), ("fanout", n), ("skinny", 2 * n)]
+        [("dense", 4 * n), ("fanout", n), ("skinny", 2 * n),
+         ("long", n // 25)]
+
+
+def gen_long(rng):
+    """machines on which a route is hundreds of hops long: long thin tori and
+    meshes, a few broken links on the way"""
+    n = rng.choice([120, 200, 240, 256, rng.randint(100, 400)])
+    k = rng.choice([1, 2, 3])
+    w, h = rng.choice([(n, k), (k, n)])
+    dead = set()
+    if rng.random() < .5:
+        dead.update(par.wrap_links(w, h))           # a mesh
+    for _ in range(rng.randint(0, 4)):
+        x, y, l = rng.randrange(w), rng.randrange(h), rng.randrange(6)
+        dead.add((x, y, l))
+        if rng.random() < .8:
+            nx, ny = par.neighbour(w, h, x, y, l)
+            dead.add((nx, ny, (l + 3) % 6))
+    return dict(w=w, h=h, dead_chips=[], dead_links=sorted(dead))
 
 
 def gen_skinny(rng, side):
@@ -105,6 +124,8 @@ def gen(cls, idx, rng, tier):
         m = par.gen_faults(rng, rng.choice(["sparse", "dense", "none"]), side)
     elif cls == "skinny":
         m = gen_skinny(rng, side)
+    elif cls == "long":
+        m = gen_long(rng)
     else:
         m = par.gen_faults(rng, cls, side)
     chips = par.live_chips(m)
